@@ -636,9 +636,9 @@ def uri_join_keeps_names(ctx: Ctx, rule: str) -> int:
     cls = prog.classes.get("dds.codecs.databricks.DBFSURI")
     if cls is None or "joinpath" not in cls.methods:
         raise AnchorError("role URI join (dds.codecs.databricks.DBFSURI.joinpath) not found")
-    f = cls.methods["joinpath"]
     n = 0
-    for st in f.own_nodes():
+    sites = [(g, st) for g in cls.methods.values() for st in g.own_nodes()]
+    for f, st in sites:
         if not (isinstance(st, ast.Assign) and len(st.targets) == 1 and isinstance(st.targets[0], ast.Name) and isinstance(st.value, ast.Subscript)
                 and isinstance(st.value.value, ast.Name) and st.value.value.id == st.targets[0].id and isinstance(st.value.slice, ast.Slice)
                 and st.value.slice.upper is None and isinstance(st.value.slice.lower, ast.Constant)):
